@@ -53,8 +53,14 @@ func quiescent() bool {
 		}
 		switch {
 		case bytes.HasPrefix(state, []byte("chan receive")), bytes.HasPrefix(state, []byte("chan send")),
-			bytes.HasPrefix(state, []byte("select")), bytes.HasPrefix(state, []byte("sync.")),
-			bytes.HasPrefix(state, []byte("semacquire")):
+			bytes.HasPrefix(state, []byte("select")), bytes.HasPrefix(state, []byte("sync.")):
+		case bytes.HasPrefix(state, []byte("semacquire")):
+			// parked on a sync primitive of the code under test -- not on a runtime-internal semaphore (a goroutine
+			// whose allocation starts a GC cycle shows as "semacquire" too while the stop-the-world dump is taken,
+			// and goes on running a moment later: seen by the C17 harness, the cause of a load flake here)
+			if !bytes.Contains(b, []byte("sync.runtime_Semacquire")) && !bytes.Contains(b, []byte("sync.(*")) {
+				return false
+			}
 		default:
 			return false // running, runnable, syscall, sleep, ...
 		}
@@ -67,7 +73,11 @@ func settle() error {
 	deadline := time.Now().Add(stepTimeout)
 	for i := 0; ; i++ {
 		if quiescent() {
-			return nil
+			// at rest means: two consecutive looks, a yield apart, both find every goroutine parked
+			runtime.Gosched()
+			if quiescent() {
+				return nil
+			}
 		}
 		if time.Now().After(deadline) {
 			return fmt.Errorf("the goroutines of the subscription pipelines did not come to rest within %v", stepTimeout)
